@@ -13,7 +13,7 @@ import random
 from typing import Any
 
 import world
-from graphsim import GRAPH_VALUED, SURGERY_OPS, gen_surgery_op, model_op
+from graphsim import GRAPH_VALUED, SURGERY_OPS, gen_dsep_op, gen_surgery_op, model_op
 from models import MG
 
 
@@ -55,6 +55,18 @@ def _gen_evolve(rng: random.Random, g: dict, cur: MG) -> tuple[list[list], MG]:
                 order.insert(rng.randrange(len(order) + 1), nm)
         elif kind == "d":
             u, v = rng.sample(nodes, 2)
+            if rng.random() < 0.3:
+                # one endpoint is a node the graph has never seen (add_directed_edge must register it everywhere)
+                nm = world.gen_names(rng, 1)[0]
+                while nm in N:
+                    nm = world.gen_names(rng, 1)[0]
+                if rng.random() < 0.5:
+                    u = nm
+                else:
+                    v = nm
+                N.add(nm)
+                if order is not None:
+                    order.insert(rng.randrange(len(order) + 1), nm)
             if order is not None:
                 if u not in order or v not in order:
                     continue
@@ -64,6 +76,14 @@ def _gen_evolve(rng: random.Random, g: dict, cur: MG) -> tuple[list[list], MG]:
             D.add((u, v))
         else:
             u, v = rng.sample(nodes, 2)
+            if rng.random() < 0.3:
+                nm = world.gen_names(rng, 1)[0]
+                while nm in N:
+                    nm = world.gen_names(rng, 1)[0]
+                v = nm
+                N.add(nm)
+                if order is not None:
+                    order.insert(rng.randrange(len(order) + 1), nm)
             steps.append(["b", u, v])
             B.add(frozenset((u, v)))
     return steps, MG(frozenset(N), frozenset(D), frozenset(B))
@@ -195,4 +215,54 @@ def gen_case_c02(seed: int, s: int, w: int, tier: str) -> dict:
     }
 
 
-GENERATORS = {"C14": gen_case_c14, "C02": gen_case_c02}
+def gen_case_c04(seed: int, s: int, w: int, tier: str) -> dict:
+    """Separation queries by 2-4 callers on shared ADMGs that keep being edited between rounds."""
+    rng = random.Random(f"{seed}:C04:{s}")
+    ngraphs = _wchoice(rng, [(1, 0.7), (2, 0.3)])
+    graphs = [world.gen_graph(rng, 2, 7, acyclic=True, pb_choices=(0.1, 0.3, 0.5), pd_choices=(0.15, 0.3, 0.5),
+                               p_iso=0.1) for _ in range(ngraphs)]
+    cur = [world.world_model(g) for g in graphs]
+    K = rng.randint(2, 4)
+    nrounds = _wchoice(rng, [(1, 0.5), (2, 0.3), (3, 0.2)])
+    read_only = tuple(o for o in SURGERY_OPS if o != "intervene")
+    rounds = []
+    for r in range(nrounds):
+        scripts: dict[str, list] = {}
+        for i in range(K):
+            script = []
+            for k in range(rng.randint(1, 4)):
+                gi = rng.randrange(ngraphs)
+                if rng.random() < 0.8:
+                    sp = gen_dsep_op(rng, ["g", gi], cur[gi])
+                else:
+                    sp = gen_surgery_op(rng, ["g", gi], cur[gi], ops=read_only)
+                if sp is not None:
+                    script.append(sp)
+            scripts[f"c{i}"] = script
+        rnd: dict[str, Any] = {"scripts": scripts}
+        if r < nrounds - 1:
+            ev = []
+            for gi in range(ngraphs):
+                if rng.random() < 0.7:
+                    steps, cur[gi] = _gen_evolve(rng, graphs[gi], cur[gi])
+                    ev.append([gi, steps])
+            rnd["evolve"] = ev
+        rounds.append(rnd)
+    pops = [{"name": "seq", "policy": "seq"}, _pop_inter(rng, "inter", tier)]
+    ab = _pop_inter(rng, "abort", tier)
+    ab["n_aborts"] = 2
+    pops.append(ab)
+    rng_w = random.Random(f"{seed}:C04:{s}:w{w}")
+    return {
+        "prop": "C04",
+        "seed": seed,
+        "scenario": s,
+        "worker": w,
+        "graphs": graphs,
+        "histories": [world.gen_history(rng_w, g) for g in graphs],
+        "rounds": rounds,
+        "pops": pops,
+    }
+
+
+GENERATORS = {"C14": gen_case_c14, "C02": gen_case_c02, "C04": gen_case_c04}
